@@ -808,6 +808,16 @@ Proof.
     + destruct (keqb_spec [a'; b; c; 0] [a'; b'; c'; 0]) as [E|_]; [inversion E; contradiction|reflexivity].
   - destruct (keqb_spec [a; b; c; 0] [a'; b'; c'; 0]) as [E|_]; [inversion E; contradiction|reflexivity].
 Qed.
+Lemma keqb_cons x y (k k' : key) : keqb (x :: k) (y :: k') = Nat.eqb x y && keqb k k'.
+Proof.
+  destruct (Nat.eqb_spec x y) as [->|Hne]; cbn [andb].
+  - destruct (keqb_spec k k') as [->|Hk]; [apply keqb_refl|].
+    destruct (keqb_spec (y :: k) (y :: k')) as [E|_]; [inversion E; contradiction|reflexivity].
+  - destruct (keqb_spec (x :: k) (y :: k')) as [E|_]; [inversion E; contradiction|reflexivity].
+Qed.
+Lemma keqb4' a b c d a' b' c' d' :
+  keqb [a; b; c; d] [a'; b'; c'; d'] = Nat.eqb a a' && Nat.eqb b b' && Nat.eqb c c' && Nat.eqb d d'.
+Proof. rewrite !keqb_cons. rewrite (keqb_refl []). rewrite andb_true_r, !andb_assoc. reflexivity. Qed.
 Lemma lsum_enum_pick {A} (G : A -> R) (d : A) (b : list A) : forall n i, i < length b ->
   lsum (enum_from n b) (fun io => if Nat.eqb (fst io) (n + i) then G (snd io) else rO) = G (nth i b d).
 Proof.
@@ -972,6 +982,123 @@ Proof.
       cbn [dnext]. rewrite !nth_overflow by lia. reflexivity. }
   pose proof (swapped_dchain o1 o2 post 0 _ _ H0) as H1. cbn [Nat.add] in H1.
   apply (H1 0 (rev spost) (rev spre)). rewrite rev_length. assumption.
+Qed.
+
+(* ================================================================== swap_site with the Jordan-Wigner rule (abstract) *)
+Lemma swap_table_shape (nprim : nat) (b2 b3 : bond) x :
+  In x (swap_table R nprim b2 b3) -> exists a1 p q i, fst x = [a1; p; q; nprim + i; 0].
+Proof.
+  unfold swap_table. intros H. apply in_flat_map in H. destruct H as [[i oo] [_ H]]. cbn [fst snd] in H.
+  apply in_flat_map in H. destruct H as [[k3 f3] [_ H]]. cbn [fst snd] in H.
+  destruct k3 as [|a2 [|o2 [|? ?]]]; try (destruct H; fail).
+  apply in_flat_map in H. destruct H as [[k2 f2] [_ H]]. cbn [fst snd] in H.
+  destruct k2 as [|a1 [|o1 [|? ?]]]; try (destruct H; fail). destruct H as [<-|[]]. cbn [fst]. eauto.
+Qed.
+(* pairs of (new-first, new-second) operators occurring in the two-site table *)
+Definition pairs_in (t : table) (dom : list (nat * nat)) : Prop :=
+  forall x a1 p q lab z, In x t -> fst x = [a1; p; q; lab; z] -> In (p, q) dom.
+Definition pair_eqb (a b : nat * nat) : bool := Nat.eqb (fst a) (fst b) && Nat.eqb (snd a) (snd b).
+Lemma pair_eqb_spec a b : reflect (a = b) (pair_eqb a b).
+Proof.
+  destruct a as [a1 a2], b as [b1 b2]. unfold pair_eqb. cbn [fst snd].
+  destruct (Nat.eqb_spec a1 b1), (Nat.eqb_spec a2 b2); constructor; congruence.
+Qed.
+Lemma lsum_pick_pair (dom : list (nat * nat)) (k : nat * nat) (F : nat * nat -> R) :
+  NoDup dom -> In k dom -> lsum dom (fun s => if pair_eqb s k then F s else rO) = F k.
+Proof.
+  induction dom as [|s dom IH]; intros ND Hin; [destruct Hin|]. cbn [SymMpo.lsum].
+  inversion ND as [|? ? Hn ND']; subst. destruct (pair_eqb_spec s k) as [->|Hne].
+  - rewrite lsum_zero; [ring|]. intros s' Hs'. destruct (pair_eqb_spec s' k) as [->|]; [contradiction|reflexivity].
+  - destruct Hin as [E|Hin]; [congruence|]. rewrite IH by assumption. ring.
+Qed.
+
+(* Exchange with the JW rule.  New string (latest site first): q' on the new second site, p' on the new first
+   site.  The coefficient is the sum, over the operator pairs (p, q) that the rule maps to (p', q'), of
+   sign * old coefficient of (p on the old second site, q on the old first site).  `dom` is any duplicate-free
+   list containing the pairs that occur. *)
+Theorem swap_jw_sound (nprim nprim' : nat) (phi : nat * nat -> nat * nat * R) (b2 b3 nb2 nb3 : bond)
+        (ws : list (wit R)) (dom : list (nat * nat)) :
+  nprim <= nprim' ->
+  swap_site_jw R iszero nprim nprim' phi b2 b3 ws = Some (nb2, nb3) ->
+  sweep_ok ws (map (jw_row R phi (nprim' - nprim)) (dedup R iszero (swap_table R nprim b2 b3))) ->
+  NoDup dom -> pairs_in (swap_table R nprim b2 b3) dom ->
+  forall (D1 : den) i p' q' l, i < length b3 ->
+    dnext R (dnext R D1 nb2) nb3 i (q' :: p' :: l)
+    = lsum dom (fun pq => if pair_eqb (fst (phi pq)) (p', q')
+                          then snd (phi pq) *! dnext R (dnext R D1 b2) b3 i (fst pq :: snd pq :: l) else rO).
+Proof.
+  intros Hle Hs Hok NDd Hdom D1 i p' q' l Hi. unfold swap_site_jw in Hs.
+  set (T := swap_table R nprim b2 b3) in *.
+  set (t := map (jw_row R phi (nprim' - nprim)) (dedup R iszero T)) in *.
+  pose proof (sweep_length ws t) as Hlen.
+  pose proof (fun s r Hl => sweep_sound ws t D1 l s r Hl Hok) as HS.
+  destruct (sweep R iszero ws t) as [bsl tf]. cbn [fst snd] in *.
+  destruct bsl as [|nb2' [|nb3u [|[|last [|? ?]] [|? ?]]]]; try discriminate.
+  destruct (final_okb R iszero tf && Nat.eqb (length nb3u) (length b3)) eqn:Ef; [|discriminate].
+  apply andb_true_iff in Ef. destruct Ef as [Ef _]. apply final_okb_sound in Ef.
+  destruct (resort R nprim' (length b3) 0 nb3u last) as [nb3'|] eqn:Er; [|discriminate].
+  inversion Hs; subst nb2' nb3'. clear Hs.
+  destruct (resort_spec nprim' nb3u last _ _ _ Er i Hi) as (i1 & f & Efl & Enth). cbn [Nat.add] in Efl.
+  specialize (HS [p'; q'; nprim' + i] [0]). cbn [length] in HS, Hlen. specialize (HS Hlen).
+  cbn [rev app] in HS. rewrite Ef in HS.
+  change ([p'; q'; nprim' + i] ++ [0]) with [p'; q'; nprim' + i; 0] in HS.
+  (* left-hand side: as in swap_sound *)
+  assert (HL : dnext R (dnext R D1 nb2) nb3 i (q' :: p' :: l) = den_table R D1 t l [p'; q'; nprim' + i; 0]).
+  { rewrite <- HS. unfold den_table. cbn [SymMpo.lsum fst snd dchain]. rewrite keqb_refl.
+    transitivity (f *! dnext R (dnext R D1 nb2) nb3u i1 (q' :: p' :: l)).
+    - cbn [dnext]. rewrite Enth. rewrite scale_outop_den. reflexivity.
+    - change (dnext R (dnext R (dnext R D1 nb2) nb3u) [last] 0 (nprim' + i :: q' :: p' :: l))
+        with (lsum last (fun p => snd p *! drow R (dnext R (dnext R D1 nb2) nb3u) (q' :: p' :: l) (nprim' + i) (fst p))).
+      rewrite (find_label_den _ _ _ _ _ _ Efl). ring. }
+  rewrite HL. clear HL HS.
+  (* right-hand side: a linear functional of the deduplicated two-site table *)
+  set (G := fun k : key => match k with
+                           | [a1; p; q; lab; z] =>
+                               if pair_eqb (fst (phi (p, q))) (p', q') && Nat.eqb (lab + (nprim' - nprim)) (nprim' + i) && Nat.eqb z 0
+                               then snd (phi (p, q)) *! D1 a1 l else rO
+                           | a :: rest => if keqb rest [p'; q'; nprim' + i; 0] then D1 a l else rO
+                           | [] => rO
+                           end).
+  assert (H1 : den_table R D1 t l [p'; q'; nprim' + i; 0] = lsum T (fun x => snd x *! G (fst x))).
+  { rewrite <- (dedup_lin G T). unfold t, den_table. rewrite lsum_map. apply lsum_ext. intros [k fx] _.
+    unfold jw_row, G. cbn [fst snd].
+    destruct k as [|a1 [|p [|q [|lab [|z [|? ?]]]]]]; cbn [fst snd];
+      try (match goal with |- context [keqb ?r ?s] => destruct (keqb r s) end; ring); try ring.
+    destruct (phi (p, q)) as [[p2 q2] c] eqn:Ephi. cbn [fst snd].
+    rewrite keqb4'. destruct (pair_eqb_spec (p2, q2) (p', q')) as [E|Hne].
+    - inversion E; subst p2 q2. rewrite !Nat.eqb_refl. cbn [andb].
+      destruct (Nat.eqb (lab + (nprim' - nprim)) (nprim' + i)), (Nat.eqb z 0); cbn [andb]; ring.
+    - assert (Hf : Nat.eqb p2 p' && Nat.eqb q2 q' = false).
+      { destruct (Nat.eqb_spec p2 p'), (Nat.eqb_spec q2 q'); try reflexivity. subst. contradiction. }
+      rewrite Hf. cbn [andb]. ring. }
+  rewrite H1. clear H1.
+  (* exchange the sums *)
+  transitivity (lsum T (fun x => lsum dom (fun pq =>
+      if pair_eqb (fst (phi pq)) (p', q')
+      then snd (phi pq) *! (match fst x with
+                            | a :: rest => if keqb rest [fst pq; snd pq; nprim + i; 0] then snd x *! D1 a l else rO
+                            | [] => rO
+                            end) else rO))).
+  - apply lsum_ext. intros x Hx. destruct (swap_table_shape nprim b2 b3 x Hx) as (a1 & p & q & i0 & Ex).
+    rewrite Ex. unfold G.
+    set (F := fun pq : nat * nat => if pair_eqb (fst (phi pq)) (p', q')
+        then snd (phi pq) *! (if keqb [p; q; nprim + i0; 0] [fst pq; snd pq; nprim + i; 0] then snd x *! D1 a1 l else rO) else rO).
+    transitivity (F (p, q)).
+    + unfold F. cbn [fst snd]. rewrite keqb4', !Nat.eqb_refl. cbn [andb].
+      assert (El : Nat.eqb (nprim + i0 + (nprim' - nprim)) (nprim' + i) = Nat.eqb (nprim + i0) (nprim + i)).
+      { destruct (Nat.eqb_spec (nprim + i0 + (nprim' - nprim)) (nprim' + i)), (Nat.eqb_spec (nprim + i0) (nprim + i)); try reflexivity; lia. }
+      rewrite El. destruct (pair_eqb (fst (phi (p, q))) (p', q')); cbn [andb]; [|ring].
+      destruct (Nat.eqb (nprim + i0) (nprim + i)); cbn [andb]; ring.
+    + rewrite <- (lsum_pick_pair dom (p, q) F NDd (Hdom x a1 p q _ _ Hx Ex)).
+      apply lsum_ext. intros [p0 q0] _. unfold F. cbn [fst snd].
+      destruct (pair_eqb_spec (p0, q0) (p, q)) as [E|Hne].
+      * inversion E; subst p0 q0. reflexivity.
+      * rewrite keqb4'. assert (Hf : Nat.eqb p p0 && Nat.eqb q q0 = false).
+        { destruct (Nat.eqb_spec p p0), (Nat.eqb_spec q q0); try reflexivity. subst. contradiction. }
+        rewrite Hf. cbn [andb]. destruct (pair_eqb (fst (phi (p0, q0))) (p', q')); ring.
+  - rewrite lsum_swap. apply lsum_ext. intros [p q] _. cbn [fst snd].
+    destruct (pair_eqb (fst (phi (p, q))) (p', q')); [|apply lsum_zero; reflexivity].
+    rewrite lsum_scale. f_equal. rewrite <- (swap_table_den nprim b2 b3 D1 l q p i Hi). reflexivity.
 Qed.
 
 (* ================================================================== the pivoted form  Gamma.P = q.r  *)
@@ -1407,3 +1534,399 @@ Proof.
 Qed.
 
 End QnLabels.
+
+(* ================================================================== third wave: bond dimension vs distinct LEFT parts *)
+Section LeftParts.
+Variable R : CRing.
+Variable iszero : R -> bool.
+Local Notation table := (table R).
+Local Notation bond := (bond R).
+
+(* Koenig certificate of a cover: a matching (edges of the incidence relation with pairwise distinct rows and
+   pairwise distinct columns) with as many edges as the cover has vertices.  It exists iff the cover is minimum
+   (Koenig's theorem, C20); the code's covers are built from exactly such a maximum matching. *)
+Definition matching_cert (t : table) (rsel csel : list key) (mt : list (key * key)) : Prop :=
+  (forall e, In e mt -> exists x, In x t /\ rk R x = fst e /\ ck R x = snd e) /\
+  NoDup (map fst mt) /\ NoDup (map snd mt) /\ length mt = cover_size rsel csel.
+
+Lemma filter_split_length {A} (p : A -> bool) (l : list A) :
+  length (filter p l) + length (filter (fun x => negb (p x)) l) = length l.
+Proof. induction l as [|a l IH]; [reflexivity|]. cbn [filter]. destruct (p a); cbn [negb length]; lia. Qed.
+Lemma NoDup_map_inj {A} (f : A -> key) (l : list A) a b :
+  NoDup (map f l) -> In a l -> In b l -> f a = f b -> a = b.
+Proof.
+  induction l as [|x l IH]; intros ND Ha Hb E; [destruct Ha|]. cbn [map] in ND. inversion ND as [|? ? Hn ND']; subst.
+  destruct Ha as [<-|Ha], Hb as [<-|Hb]; auto.
+  - exfalso. apply Hn. rewrite E. apply in_map, Hb.
+  - exfalso. apply Hn. rewrite <- E. apply in_map, Ha.
+Qed.
+Lemma filter_map_nodup' {A} (p : A -> bool) (f : A -> key) (l : list A) : NoDup (map f l) -> NoDup (map f (filter p l)).
+Proof.
+  induction l as [|x l IH]; cbn [filter map]; intros ND; [constructor|].
+  inversion ND as [|? ? Hn ND']; subst. destruct (p x); cbn [map]; [|auto].
+  constructor; [|auto]. intros H. apply Hn. apply in_map_iff in H. destruct H as [y [E Hy]].
+  apply filter_In in Hy. apply in_map_iff. exists y. tauto.
+Qed.
+
+(* in a cover with a certificate every selected column is matched to an UNSELECTED row, and every selected row to
+   an unselected column *)
+Lemma cert_partner_col (t : table) rsel csel mt :
+  covers R t rsel csel -> NoDup rsel -> NoDup csel -> matching_cert t rsel csel mt ->
+  forall c, In c csel -> exists r, In (r, c) mt /\ ~ In r rsel.
+Proof.
+  intros Hcov NDr NDc (Hedge & ND1 & ND2 & Hlen) c Hc.
+  set (pA := fun e : key * key => memb (snd e) csel).
+  set (A := filter pA mt). set (B := filter (fun e => negb (pA e)) mt).
+  assert (HA : incl (map snd A) csel).
+  { intros k Hk. apply in_map_iff in Hk. destruct Hk as [e [<- He]]. apply filter_In in He. destruct He as [_ He].
+    unfold pA in He. destruct (memb_spec (snd e) csel); [assumption|discriminate]. }
+  assert (HB : incl (map fst B) rsel).
+  { intros k Hk. apply in_map_iff in Hk. destruct Hk as [e [<- He]]. apply filter_In in He. destruct He as [He Hn].
+    unfold pA in Hn. destruct (memb_spec (snd e) csel) as [|Hnc]; [discriminate|].
+    destruct (Hedge e He) as (x & Hx & E1 & E2). destruct (Hcov x Hx) as [H|H]; [rewrite <- E1; exact H|].
+    rewrite E2 in H. contradiction. }
+  assert (NA : NoDup (map snd A)) by (apply filter_map_nodup', ND2).
+  assert (NB : NoDup (map fst B)) by (apply filter_map_nodup', ND1).
+  pose proof (NoDup_incl_length NA HA) as LA. pose proof (NoDup_incl_length NB HB) as LB.
+  pose proof (filter_split_length pA mt) as Hs. fold A B in Hs. rewrite !map_length in LA, LB.
+  unfold cover_size in Hlen.
+  assert (IA : incl csel (map snd A)) by (apply NoDup_length_incl; [assumption|rewrite map_length; lia|assumption]).
+  assert (IB : incl rsel (map fst B)) by (apply NoDup_length_incl; [assumption|rewrite map_length; lia|assumption]).
+  apply IA in Hc. apply in_map_iff in Hc. destruct Hc as [[r c'] [Ec He]]. cbn [snd] in Ec. subst c'.
+  assert (Hmt : In (r, c) mt) by (apply filter_In in He; tauto).
+  exists r. split; [assumption|]. intros Hr. apply IB in Hr. apply in_map_iff in Hr. destruct Hr as [e' [Er He']].
+  assert (Hmt' : In e' mt) by (apply filter_In in He'; tauto).
+  assert (Ee : e' = (r, c)) by (apply (NoDup_map_inj fst mt e' (r, c) ND1 Hmt' Hmt); exact Er).
+  subst e'. apply filter_In in He'. destruct He' as [_ Hn]. unfold pA in Hn. cbn [snd] in Hn.
+  destruct (memb_spec c csel) as [|Hnc]; [discriminate|].
+  apply Hnc. apply filter_In in He. destruct He as [_ He]. unfold pA in He. cbn [snd] in He.
+  destruct (memb_spec c csel); [assumption|discriminate].
+Qed.
+
+(* ---- the rows of the table at every later site in terms of the ORIGINAL table: phi maps each current row key
+        (previous bond operator, operator on this site) injectively to a left part of an original term whose right
+        remainder is the row's column key *)
+Definition partner (mt : list (key * key)) (c : key) : key :=
+  match find (fun e => keqb (snd e) c) mt with Some e => fst e | None => [] end.
+Definition rep (rsel csel : list key) (mt : list (key * key)) (idx : nat) : key :=
+  if Nat.ltb idx (length rsel) then nth idx rsel [] else partner mt (nth (idx - length rsel) csel []).
+Definition phi_next (phi : key -> key) rsel csel mt (k' : key) : key :=
+  match k' with idx :: tl => phi (rep rsel csel mt idx) ++ tl | [] => [] end.
+Definition left_inv (i : nat) (t0 t : table) (phi : key -> key) : Prop :=
+  (forall x, In x t -> exists x0, In x0 t0 /\ firstn (S (S i)) (fst x0) = phi (rk R x) /\ skipn (S (S i)) (fst x0) = ck R x)
+  /\ (forall x y, In x t -> In y t -> phi (rk R x) = phi (rk R y) -> rk R x = rk R y).
+
+Lemma partner_spec mt r c : NoDup (map snd mt) -> In (r, c) mt -> partner mt c = r.
+Proof.
+  unfold partner. induction mt as [|e mt IH]; intros ND Hin; [destruct Hin|]. cbn [find].
+  cbn [map] in ND. inversion ND as [|? ? Hn ND']; subst.
+  destruct (keqb_spec (snd e) c) as [E|Hne].
+  - destruct Hin as [->|Hin]; [reflexivity|]. exfalso. apply Hn. rewrite E. change c with (snd (r, c)). apply in_map, Hin.
+  - destruct Hin as [->|Hin]; [cbn [snd] in Hne; congruence|]. apply IH; assumption.
+Qed.
+Lemma firstn_S_app {A} n (l : list A) : firstn (S n) l = firstn n l ++ firstn 1 (skipn n l).
+Proof.
+  revert l. induction n as [|n IH]; intros l; [destruct l; reflexivity|].
+  destruct l as [|a l]; [reflexivity|]. change (firstn (S (S n)) (a :: l)) with (a :: firstn (S n) l).
+  rewrite IH. reflexivity.
+Qed.
+Lemma app_eq_len {A} (l1 l2 a b : list A) : l1 ++ a = l2 ++ b -> length l1 = length l2 -> l1 = l2 /\ a = b.
+Proof.
+  revert l2. induction l1 as [|x l1 IH]; intros l2 E Hl; destruct l2 as [|y l2]; cbn [length] in Hl; try lia.
+  - split; [reflexivity|exact E].
+  - cbn [app] in E. inversion E; subst. destruct (IH l2 H1) as [-> ->]; [lia|]. split; reflexivity.
+Qed.
+
+(* where a row of the new table comes from *)
+Lemma new_table_origin (t : table) rs cs mt :
+  covers R t rs cs -> NoDup rs -> NoDup cs -> matching_cert t rs cs mt ->
+  forall y, In y (snd (decompose_graph R t rs cs)) ->
+  exists idx x, In x t /\ fst y = idx :: ck R x /\ rep rs cs mt idx = rk R x /\
+    ((idx < length rs /\ In (rk R x) rs)
+     \/ (length rs <= idx /\ idx - length rs < length cs /\ ~ In (rk R x) rs /\ In (rk R x, nth (idx - length rs) cs []) mt)).
+Proof.
+  intros Hcov NDr NDc Hcert y Hy. unfold decompose_graph in Hy. cbn [snd] in Hy. apply in_app_or in Hy. destruct Hy as [Hy|Hy].
+  - unfold new_rows in Hy. apply in_flat_map in Hy. destruct Hy as [[idx r] [Hir Hy]]. cbn [fst snd] in Hy.
+    apply in_map_iff in Hy. destruct Hy as [x [Ey Hx]]. apply filter_In in Hx. destruct Hx as [Hx Hr].
+    destruct (keqb_spec (rk R x) r) as [Er|]; [|discriminate]. subst y.
+    destruct (in_enum_from_nth rs [] _ _ _ Hir) as [Hi En]. rewrite Nat.sub_0_r in En. cbn [Nat.add] in Hi.
+    exists idx, x. split; [assumption|]. split; [reflexivity|]. split.
+    + unfold rep. destruct (Nat.ltb_spec idx (length rs)); [|lia]. congruence.
+    + left. split; [lia|]. rewrite Er, En. apply nth_In. lia.
+  - unfold new_cols in Hy. apply in_map_iff in Hy. destruct Hy as [[idx c] [Ey Hjc]]. cbn [fst snd] in Ey. subst y.
+    destruct (in_enum_from_nth cs [] _ _ _ Hjc) as [Hj En].
+    assert (Hc : In c cs) by (rewrite En; apply nth_In; lia).
+    destruct (cert_partner_col t rs cs mt Hcov NDr NDc Hcert c Hc) as (r & Hrc & Hnr).
+    destruct Hcert as (Hedge & ND1 & ND2 & Hlen). destruct (Hedge _ Hrc) as (x & Hx & E1 & E2). cbn [fst snd] in E1, E2.
+    exists idx, x. split; [assumption|]. split; [cbn [fst]; congruence|]. split.
+    + unfold rep. destruct (Nat.ltb_spec idx (length rs)); [lia|]. rewrite <- En. rewrite (partner_spec mt r c ND2 Hrc). congruence.
+    + right. split; [lia|]. split; [lia|]. split; [rewrite E1; exact Hnr|]. rewrite E1, <- En. exact Hrc.
+Qed.
+
+Lemma left_step (i : nat) (t0 t : table) phi rs cs mt :
+  (forall x0, In x0 t0 -> S (S i) <= length (fst x0)) -> left_inv i t0 t phi ->
+  covers R t rs cs -> NoDup rs -> NoDup cs -> matching_cert t rs cs mt ->
+  left_inv (S i) t0 (snd (decompose_graph R t rs cs)) (phi_next phi rs cs mt).
+Proof.
+  intros Hlen [H1 H2] Hcov NDr NDc Hcert.
+  assert (Horig := new_table_origin t rs cs mt Hcov NDr NDc Hcert).
+  assert (Hrk : forall (y : trow R) idx (x : trow R), fst y = idx :: ck R x -> rk R y = idx :: firstn 1 (ck R x)).
+  { intros [ky fy] idx x E. cbn [fst] in E. unfold rk at 1. cbn [fst]. rewrite E. destruct (ck R x); reflexivity. }
+  assert (Hphi : forall (y : trow R) idx (x : trow R), fst y = idx :: ck R x -> rep rs cs mt idx = rk R x ->
+                 phi_next phi rs cs mt (rk R y) = phi (rk R x) ++ firstn 1 (ck R x)).
+  { intros y idx x E Er. rewrite (Hrk y idx x E). unfold phi_next. rewrite Er. reflexivity. }
+  assert (Hplen : forall x, In x t -> length (phi (rk R x)) = S (S i)).
+  { intros x Hx. destruct (H1 x Hx) as (x0 & Hx0 & E1 & _). rewrite <- E1. apply firstn_length_le, Hlen, Hx0. }
+  split.
+  - intros y Hy. destruct (Horig y Hy) as (idx & x & Hx & Ey & Er & _).
+    destruct (H1 x Hx) as (x0 & Hx0 & E1 & E2). exists x0. split; [assumption|]. split.
+    + rewrite (Hphi y idx x Ey Er). rewrite firstn_S_app, E1, E2. reflexivity.
+    + assert (Eck : ck R y = skipn 1 (ck R x)).
+      { destruct y as [ky fy]. cbn [fst] in Ey. unfold ck at 1. cbn [fst]. rewrite Ey. reflexivity. }
+      rewrite Eck, <- E2. apply (eq_sym (skipn_1_skipn (S (S i)) (fst x0))).
+  - intros y1 y2 Hy1 Hy2 E.
+    destruct (Horig y1 Hy1) as (i1 & x1 & Hx1 & Ey1 & Er1 & C1).
+    destruct (Horig y2 Hy2) as (i2 & x2 & Hx2 & Ey2 & Er2 & C2).
+    rewrite (Hphi y1 i1 x1 Ey1 Er1), (Hphi y2 i2 x2 Ey2 Er2) in E.
+    destruct (app_eq_len _ _ _ _ E) as [Ep Et]; [rewrite !Hplen by assumption; reflexivity|].
+    pose proof (H2 x1 x2 Hx1 Hx2 Ep) as Erk.
+    rewrite (Hrk y1 i1 x1 Ey1), (Hrk y2 i2 x2 Ey2), Et. f_equal.
+    destruct Hcert as (Hedge & ND1 & ND2 & Hl).
+    destruct C1 as [[Hi1 Hin1]|(Hi1 & Hj1 & Hn1 & Hm1)], C2 as [[Hi2 Hin2]|(Hi2 & Hj2 & Hn2 & Hm2)].
+    + unfold rep in Er1, Er2. destruct (Nat.ltb_spec i1 (length rs)); [|lia]. destruct (Nat.ltb_spec i2 (length rs)); [|lia].
+      apply (proj1 (NoDup_nth rs []) NDr i1 i2); [assumption|assumption|congruence].
+    + exfalso. apply Hn2. rewrite <- Erk. exact Hin1.
+    + exfalso. apply Hn1. rewrite Erk. exact Hin2.
+    + rewrite Erk in Hm1.
+      assert (Ee := NoDup_map_inj fst mt _ _ ND1 Hm1 Hm2 eq_refl). inversion Ee as [Ec].
+      assert (Ej : i1 - length rs = i2 - length rs) by (apply (proj1 (NoDup_nth cs []) NDc); assumption).
+      lia.
+Qed.
+
+Fixpoint cert_sweep (ws : list (wit R)) (t : table) : Prop :=
+  match ws with
+  | [] => True
+  | WG _ rs cs :: r => covers R t rs cs /\ NoDup rs /\ NoDup cs /\ (exists mt, matching_cert t rs cs mt)
+                       /\ cert_sweep r (snd (decompose_graph R t rs cs))
+  | WQ _ _ _ _ _ _ :: _ => False
+  end.
+
+(* EVERY cut: the bond has at most as many operators as there are distinct left parts in the ORIGINAL table
+   (ls0 = any list containing the left part of every original row) *)
+Theorem bond_le_left_parts_gen (ws : list (wit R)) : forall (t t0 : table) (i : nat) phi,
+  left_inv i t0 t phi -> (forall x0, In x0 t0 -> S (i + length ws) <= length (fst x0)) -> cert_sweep ws t ->
+  forall j (ls0 : list key), j < length ws ->
+    (forall x0, In x0 t0 -> In (firstn (S (S (i + j))) (fst x0)) ls0) ->
+    length (nth j (fst (sweep R iszero ws t)) []) <= length ls0.
+Proof.
+  induction ws as [|w ws IH]; intros t t0 i phi Hinv Hlen Hs j ls0 Hj Hls; cbn [length] in Hj; [lia|].
+  destruct w as [rs cs|]; [|destruct Hs]. destruct Hs as (Hcov & NDr & NDc & [mt Hcert] & Hrest).
+  cbn [sweep fst snd step]. destruct j as [|j]; cbn [nth].
+  - rewrite graph_bond_size. destruct Hcert as (Hedge & ND1 & ND2 & Hl). rewrite <- Hl.
+    destruct Hinv as [H1 H2]. rewrite Nat.add_0_r in Hls.
+    rewrite <- (map_length fst mt), <- (map_length phi (map fst mt)). apply NoDup_incl_length.
+    + (* phi is injective on the row keys of the matching *)
+      assert (G : forall l : list key, NoDup l -> (forall k, In k l -> exists x, In x t /\ rk R x = k) -> NoDup (map phi l)).
+      { induction l as [|k l IHl]; intros NDl Hk; cbn [map]; [constructor|]. inversion NDl as [|? ? Hn NDl']; subst.
+        constructor; [|apply IHl; [assumption|intros; apply Hk; right; assumption]].
+        intros Hin. apply in_map_iff in Hin. destruct Hin as [k' [E Hk']].
+        destruct (Hk k (or_introl eq_refl)) as (x & Hx & Ex). destruct (Hk k' (or_intror Hk')) as (x' & Hx' & Ex').
+        subst k k'. rewrite (H2 x x' Hx Hx' (eq_sym E)) in Hn. contradiction. }
+      apply G; [assumption|]. intros k Hk. apply in_map_iff in Hk. destruct Hk as [e [<- He]].
+      destruct (Hedge e He) as (x & Hx & E1 & _). eauto.
+    + intros k Hk. apply in_map_iff in Hk. destruct Hk as [k0 [<- Hk0]]. apply in_map_iff in Hk0. destruct Hk0 as [e [<- He]].
+      destruct (Hedge e He) as (x & Hx & E1 & _). rewrite <- E1. destruct (H1 x Hx) as (x0 & Hx0 & E & _). rewrite <- E. apply Hls, Hx0.
+  - apply (IH _ t0 (S i) (phi_next phi rs cs mt)); [| | assumption | lia |].
+    + apply left_step; try assumption. intros x0 Hx0. specialize (Hlen x0 Hx0). cbn [length] in Hlen. lia.
+    + intros x0 Hx0. specialize (Hlen x0 Hx0). cbn [length] in Hlen. lia.
+    + intros x0 Hx0. replace (S i + j) with (i + S j) by lia. apply Hls, Hx0.
+Qed.
+
+Lemma left_inv_init (t0 : table) : left_inv 0 t0 t0 (fun k => k).
+Proof. split; [intros x Hx; exists x; split; [assumption|split; reflexivity]|intros x y _ _ E; exact E]. Qed.
+
+Theorem bond_le_left_parts (ws : list (wit R)) (t0 : table) :
+  (forall x0, In x0 t0 -> S (length ws) <= length (fst x0)) -> cert_sweep ws t0 ->
+  forall j (ls0 : list key), j < length ws ->
+    (forall x0, In x0 t0 -> In (firstn (S (S j)) (fst x0)) ls0) ->
+    length (nth j (fst (sweep R iszero ws t0)) []) <= length ls0.
+Proof. intros Hlen Hs j ls0 Hj Hls. exact (bond_le_left_parts_gen ws t0 t0 0 (fun k => k) (left_inv_init t0) Hlen Hs j ls0 Hj Hls). Qed.
+
+End LeftParts.
+
+(* ================================================================== bridge to C20: a MINIMUM cover has a Koenig certificate *)
+From RV Require Model.Cover Proofs.CoverProofs.
+
+Section KonigBridge.
+Variable R : CRing.
+Local Notation table := (table R).
+
+Lemma uniq_keys_spec (l : list key) : forall seen,
+  NoDup (uniq_keys l seen) /\ (forall k, In k (uniq_keys l seen) <-> In k l /\ ~ In k seen).
+Proof.
+  induction l as [|x l IH]; intros seen; cbn [uniq_keys]; [split; [constructor|intros k; cbn [In]; tauto]|].
+  destruct (memb_spec x seen) as [Hs|Hs].
+  - destruct (IH seen) as [N H]. split; [exact N|]. intros k. rewrite H. cbn [In]. split; [tauto|].
+    intros [[<-|Hk] Hn]; [contradiction|tauto].
+  - destruct (IH (x :: seen)) as [N H]. split.
+    + constructor; [|exact N]. rewrite H. cbn [In]. tauto.
+    + intros k. cbn [In]. rewrite H. cbn [In]. split.
+      * intros [<-|[Hk Hn]]; [tauto|]. split; [tauto|]. intros Hks. apply Hn. right. exact Hks.
+      * intros [[<-|Hk] Hn]; [tauto|]. destruct (key_eq_dec x k) as [->|Hne]; [tauto|]. right. split; [assumption|].
+        intros [E|Hks]; [contradiction|contradiction].
+Qed.
+Fixpoint kindex (k : key) (l : list key) : nat :=
+  match l with [] => 0 | x :: r => if keqb x k then 0 else S (kindex k r) end.
+Lemma kindex_nth k l : In k l -> nth (kindex k l) l [] = k /\ kindex k l < length l.
+Proof.
+  induction l as [|x l IH]; intros H; [destruct H|]. cbn [kindex].
+  destruct (keqb_spec x k) as [->|Hne]; cbn [nth length]; [split; [reflexivity|lia]|].
+  destruct H as [H|H]; [contradiction|]. destruct (IH H). split; [assumption|lia].
+Qed.
+Definition edgeb (t : table) (r c : key) : bool := existsb (fun x => keqb (rk R x) r && keqb (ck R x) c) t.
+Lemma edgeb_spec t r c : edgeb t r c = true <-> exists x, In x t /\ rk R x = r /\ ck R x = c.
+Proof.
+  unfold edgeb. rewrite existsb_exists. split; intros [x [Hx H]]; exists x; split; try assumption.
+  - apply andb_true_iff in H. destruct H as [H1 H2]. destruct (keqb_spec (rk R x) r), (keqb_spec (ck R x) c); try discriminate. tauto.
+  - destruct H as [-> ->]. rewrite !keqb_refl. reflexivity.
+Qed.
+(* the incidence relation as an index graph over (distinct row keys, distinct column keys) *)
+Definition igraph (t : table) : Cover.graph :=
+  map (fun r => filter (fun v => edgeb t r (nth v (ucols R t) [])) (seq 0 (length (ucols R t)))) (urows R t).
+Lemma nbrs_igraph t u v :
+  In v (Cover.nbrs (igraph t) u) <->
+  u < length (urows R t) /\ v < length (ucols R t) /\ edgeb t (nth u (urows R t) []) (nth v (ucols R t) []) = true.
+Proof.
+  unfold Cover.nbrs, igraph. destruct (Nat.lt_ge_cases u (length (urows R t))) as [Hu|Hu].
+  - rewrite (nth_map_in _ (urows R t) u [] []) by assumption. rewrite filter_In, in_seq. split; [intros [H1 H2]|intros (H1 & H2 & H3)]; repeat split; auto; lia.
+  - rewrite nth_overflow by (rewrite map_length; assumption). split; [intros []|lia].
+Qed.
+Lemma NoDup_map_inj_on' {A} (f : A -> key) (l : list A) :
+  NoDup l -> (forall a b, In a l -> In b l -> f a = f b -> a = b) -> NoDup (map f l).
+Proof.
+  induction l as [|x l IH]; intros ND Hinj; cbn [map]; [constructor|]. inversion ND as [|? ? Hn ND']; subst.
+  constructor; [|apply IH; [assumption|intros; apply Hinj; try right; assumption]].
+  intros H. apply in_map_iff in H. destruct H as [y [E Hy]]. rewrite (Hinj y x (or_intror Hy) (or_introl eq_refl) E) in Hy. contradiction.
+Qed.
+Lemma nth_inj (l : list key) i j : NoDup l -> i < length l -> j < length l -> nth i l [] = nth j l [] -> i = j.
+Proof. intros ND Hi Hj E. apply (proj1 (NoDup_nth l []) ND i j Hi Hj E). Qed.
+
+(* weak duality for key graphs *)
+Lemma key_weak_duality (t : table) rs cs (mt : list (key * key)) :
+  covers R t rs cs -> NoDup rs -> NoDup cs ->
+  (forall e, In e mt -> exists x, In x t /\ rk R x = fst e /\ ck R x = snd e) ->
+  NoDup (map fst mt) -> NoDup (map snd mt) -> length mt <= cover_size rs cs.
+Proof.
+  intros Hcov NDr NDc Hedge ND1 ND2.
+  set (pA := fun e : key * key => memb (snd e) cs).
+  assert (HA : incl (map snd (filter pA mt)) cs).
+  { intros k Hk. apply in_map_iff in Hk. destruct Hk as [e [<- He]]. apply filter_In in He. destruct He as [_ He].
+    unfold pA in He. destruct (memb_spec (snd e) cs); [assumption|discriminate]. }
+  assert (HB : incl (map fst (filter (fun e => negb (pA e)) mt)) rs).
+  { intros k Hk. apply in_map_iff in Hk. destruct Hk as [e [<- He]]. apply filter_In in He. destruct He as [He Hn].
+    unfold pA in Hn. destruct (memb_spec (snd e) cs) as [|Hnc]; [discriminate|].
+    destruct (Hedge e He) as (x & Hx & E1 & E2). destruct (Hcov x Hx) as [H|H]; [rewrite <- E1; exact H|].
+    rewrite E2 in H. contradiction. }
+  pose proof (NoDup_incl_length (filter_map_nodup' pA snd mt ND2) HA) as LA.
+  pose proof (NoDup_incl_length (filter_map_nodup' (fun e => negb (pA e)) fst mt ND1) HB) as LB.
+  pose proof (filter_split_length pA mt) as Hs. rewrite !map_length in LA, LB. unfold cover_size. lia.
+Qed.
+
+Theorem min_cover_has_cert (t : table) (rs cs : list key) :
+  covers R t rs cs -> NoDup rs -> NoDup cs -> is_min_cover R t rs cs ->
+  exists mt, matching_cert R t rs cs mt.
+Proof.
+  intros Hcov NDr NDc Hmin.
+  set (U := urows R t). set (V := ucols R t). set (bg := igraph t).
+  destruct (uniq_keys_spec (map (rk R) t) []) as [NU HU]. destruct (uniq_keys_spec (map (ck R) t) []) as [NV HV].
+  fold (urows R t) in NU, HU. fold (ucols R t) in NV, HV. fold U in NU, HU. fold V in NV, HV.
+  destruct (CoverProofs.hungarian_konig_total Cover.no_rot bg CoverProofs.no_rot_is_rot) as (ml & cu & cv & _ & Hm & Hk).
+  destruct (CoverProofs.cover_from_matching_is_cover Cover.no_rot CoverProofs.no_rot_is_rot bg (length bg) (Cover.nV_of bg)
+              (CoverProofs.graph_shape bg) ml cu cv Hk) as (Hc & Ncu & Ncv).
+  pose proof (CoverProofs.cover_from_matching_size Cover.no_rot CoverProofs.no_rot_is_rot bg (length bg) (Cover.nV_of bg)
+              (CoverProofs.graph_shape bg) ml cu cv Hm Hk) as Hsz.
+  (* the Koenig cover, translated back to keys, bounds the given minimum cover *)
+  assert (Hcov' : covers R t (map (fun u => nth u U []) cu) (map (fun v => nth v V []) cv)).
+  { intros x Hx.
+    assert (Hr : In (rk R x) U) by (apply HU; split; [apply in_map, Hx|intros []]).
+    assert (Hcx : In (ck R x) V) by (apply HV; split; [apply in_map, Hx|intros []]).
+    destruct (kindex_nth _ _ Hr) as [Er Lr]. destruct (kindex_nth _ _ Hcx) as [Ec Lc].
+    assert (He : In (kindex (ck R x) V) (Cover.nbrs bg (kindex (rk R x) U))).
+    { apply nbrs_igraph. fold U V. repeat split; try assumption. rewrite Er, Ec. apply edgeb_spec. eauto. }
+    destruct (Hc _ _ He) as [H|H]; [left|right]; apply in_map_iff; eexists; split; try exact H; assumption. }
+  pose proof (Hmin _ _ Hcov') as Hle. unfold cover_size in Hle. rewrite !map_length in Hle.
+  (* the matching, translated to keys *)
+  destruct Hm as (Hl & Hedge & Hinj).
+  set (uof := fun v => match Cover.mget ml v with Some u => u | None => 0 end).
+  set (mv := Cover.matched_v (Cover.nV_of bg) (Cover.mget ml)).
+  assert (Hmv : forall v, In v mv -> exists u, Cover.mget ml v = Some u /\ u < length U /\ v < length V /\
+                                             edgeb t (nth u U []) (nth v V []) = true).
+  { intros v Hv. unfold mv, Cover.matched_v in Hv. apply filter_In in Hv. destruct Hv as [_ Hs].
+    destruct (Cover.mget ml v) as [u|] eqn:Eu; [|discriminate]. exists u. split; [reflexivity|].
+    apply (proj1 (nbrs_igraph t u v)). apply Hedge, Eu. }
+  assert (Nmv : NoDup mv) by (apply NoDup_filter, seq_NoDup).
+  exists (map (fun v => (nth (uof v) U [], nth v V [])) mv).
+  assert (Eedge : forall e, In e (map (fun v => (nth (uof v) U [], nth v V [])) mv) ->
+                  exists x, In x t /\ rk R x = fst e /\ ck R x = snd e).
+  { intros e He. apply in_map_iff in He. destruct He as [v [<- Hv]]. destruct (Hmv v Hv) as (u & Eu & _ & _ & Hb).
+    unfold uof. rewrite Eu. cbn [fst snd]. apply edgeb_spec, Hb. }
+  assert (N1 : NoDup (map fst (map (fun v => (nth (uof v) U [], nth v V [])) mv))).
+  { rewrite map_map. cbn [fst]. apply NoDup_map_inj_on'; [assumption|]. intros a b Ha Hb E.
+    destruct (Hmv a Ha) as (ua & Ea & La & _ & _). destruct (Hmv b Hb) as (ub & Eb & Lb & _ & _).
+    unfold uof in E. rewrite Ea, Eb in E. pose proof (nth_inj U ua ub NU La Lb E) as Eu. subst ub.
+    apply (Hinj a b ua Ea Eb). }
+  assert (N2 : NoDup (map snd (map (fun v => (nth (uof v) U [], nth v V [])) mv))).
+  { rewrite map_map. cbn [snd]. apply NoDup_map_inj_on'; [assumption|]. intros a b Ha Hb E.
+    destruct (Hmv a Ha) as (_ & _ & _ & La & _). destruct (Hmv b Hb) as (_ & _ & _ & Lb & _).
+    apply (nth_inj V a b NV La Lb E). }
+  repeat split; try assumption.
+  pose proof (key_weak_duality t rs cs _ Hcov NDr NDc Eedge N1 N2) as Hge.
+  rewrite map_length in *. unfold Cover.msize in Hsz. fold mv in Hsz. unfold cover_size in *. lia.
+Qed.
+
+End KonigBridge.
+
+Section LeftPartsMin.
+Variable R : CRing.
+Variable iszero : R -> bool.
+(* graph sweeps whose witnesses are duplicate-free MINIMUM covers *)
+Fixpoint min_sweep_nd (ws : list (wit R)) (t : table R) : Prop :=
+  match ws with
+  | [] => True
+  | WG _ rs cs :: r => covers R t rs cs /\ NoDup rs /\ NoDup cs /\ is_min_cover R t rs cs
+                       /\ min_sweep_nd r (snd (decompose_graph R t rs cs))
+  | WQ _ _ _ _ _ _ :: _ => False
+  end.
+Lemma min_sweep_cert (ws : list (wit R)) : forall t, min_sweep_nd ws t -> cert_sweep R ws t.
+Proof.
+  induction ws as [|w ws IH]; intros t H; [exact I|]. destruct w as [rs cs|]; [|destruct H].
+  destruct H as (H1 & H2 & H3 & H4 & H5). cbn [cert_sweep]. repeat split; try assumption.
+  - apply min_cover_has_cert; assumption.
+  - apply IH, H5.
+Qed.
+(* the consequence stated in property C20, left half: with minimum covers the bond at EVERY cut has at most as many
+   operators as there are distinct left parts (operators on the sites up to the cut) in the ORIGINAL table *)
+Theorem bond_le_left_parts_min (ws : list (wit R)) (t0 : table R) :
+  (forall x0, In x0 t0 -> S (length ws) <= length (fst x0)) -> min_sweep_nd ws t0 ->
+  forall j (ls0 : list key), j < length ws ->
+    (forall x0, In x0 t0 -> In (firstn (S (S j)) (fst x0)) ls0) ->
+    length (nth j (fst (sweep R iszero ws t0)) []) <= length ls0.
+Proof. intros Hlen Hs. apply bond_le_left_parts; [assumption|apply min_sweep_cert, Hs]. Qed.
+Lemma matching_certb_sound (t : table R) rs cs mt : matching_certb R t rs cs mt = true -> matching_cert R t rs cs mt.
+Proof.
+  unfold matching_certb. intros H. repeat (apply andb_true_iff in H; destruct H as [H ?]).
+  repeat split; auto using nodupb_sound.
+  - intros e He. rewrite forallb_forall in H. specialize (H e He). apply existsb_exists in H. destruct H as [x [Hx Hb]].
+    apply andb_true_iff in Hb. destruct Hb as [B1 B2]. destruct (keqb_spec (rk R x) (fst e)), (keqb_spec (ck R x) (snd e)); try discriminate. eauto.
+  - apply Nat.eqb_eq. assumption.
+Qed.
+Lemma cert_sweepb_sound (ws : list (wit R)) : forall mts t, cert_sweepb R ws mts t = true -> cert_sweep R ws t.
+Proof.
+  induction ws as [|w ws IH]; intros mts t H; [exact I|]. destruct w as [rs cs|]; [|destruct mts; discriminate].
+  destruct mts as [|mt mr]; [discriminate|]. cbn [cert_sweepb cert_sweep] in *.
+  repeat (apply andb_true_iff in H; destruct H as [H ?]).
+  repeat split; auto using nodupb_sound, is_cover_sound.
+  - exists mt. apply matching_certb_sound. assumption.
+  - eapply IH; eassumption.
+Qed.
+End LeftPartsMin.
